@@ -50,7 +50,7 @@ theorem C10_sem_def (xs : List ℝ) :
 /-- **C10.** `meanPair` (what `ExperimentalValueArray.mean` returns) is (mean, std/√n). -/
 theorem C10_meanPair (xs : List ℝ) :
     meanPair xs = (xs.sum / (xs.length : ℝ), std1 xs / Real.sqrt (xs.length : ℝ)) := by
-  rw [meanPair, mean_eq, sem_eq]
+  rw [← mean_eq, ← sem_eq]; rfl
 
 /-! ### 2.–4. deviations and variance -/
 
@@ -295,23 +295,23 @@ theorem C10_selectors_from (r : Rep ℝ) (hz : hasZero r.es = false) (ss : List 
     rw [run_snoc, C10_lastErrSel_snoc]
     cases s
     · -- useStd
-      simp only [Rep.step, Sel.isErrSel, if_true, List.mem_append, List.mem_singleton,
+      simp only [step_useStd, Sel.isErrSel, if_true, List.mem_append, List.mem_singleton,
         reduceCtorEq, or_false, ihv, hxs]
       trivial
     · -- useSem
-      simp only [Rep.step, Sel.isErrSel, if_true, List.mem_append, List.mem_singleton,
+      simp only [step_useSem, Sel.isErrSel, if_true, List.mem_append, List.mem_singleton,
         reduceCtorEq, or_false, ihv, hxs]
       trivial
     · -- useWmean
       have hstep : (r.run ss).step Sel.useWmean
           = { r.run ss with value := wmean r.xs r.es } := by
-        simp [Rep.step, hz, hxs, hes]
+        simp [step_useWmean, hz, hxs, hes]
       rw [hstep]
       simp [Sel.isErrSel, ihe]
     · -- usePerr
       have hstep : (r.run ss).step Sel.usePerr
           = { r.run ss with error := perr r.es } := by
-        simp [Rep.step, hz, hes]
+        simp [step_usePerr, hz, hes]
       rw [hstep]
       simp [Sel.isErrSel, ihv]
 
@@ -328,7 +328,8 @@ theorem C10_selectors (xs es : List ℝ) (hz : hasZero es = false) (ss : List Se
         | some .useStd => std1 xs
         | some .usePerr => perr es
         | some .useWmean => sem xs) := by
-  have h := C10_selectors_from (Rep.init xs es) hz ss
+  have h := C10_selectors_from (Rep.init xs es) (by rw [init_eq]; exact hz) ss
+  rw [init_eq] at h ⊢
   refine ⟨h.1, ?_⟩
   rw [h.2]
   cases hl : lastErrSel ss with
@@ -351,10 +352,10 @@ theorem C10_selectors_zero_from (r : Rep ℝ) (hz : hasZero r.es = true) (ss : L
     cases s
     · simpa [List.filter_cons, run_cons] using ih _ hz'
     · simpa [List.filter_cons, run_cons] using ih _ hz'
-    · have : r.step Sel.useWmean = r := by simp [Rep.step, hz]
+    · have : r.step Sel.useWmean = r := by simp [step_useWmean, hz]
       rw [run_cons, this]
       simpa [List.filter_cons] using ih r hz
-    · have : r.step Sel.usePerr = r := by simp [Rep.step, hz]
+    · have : r.step Sel.usePerr = r := by simp [step_usePerr, hz]
       rw [run_cons, this]
       simpa [List.filter_cons] using ih r hz
 
@@ -379,7 +380,7 @@ theorem C10_selectors_zero (xs es : List ℝ) (hz : hasZero es = true) (ss : Lis
       | cons t ts ih =>
         intro r hr
         rw [run_cons, ih _ (by rw [step_es]; exact hr)]
-        cases t <;> simp [Rep.step, hr]
+        cases t <;> simp [step_useStd, step_useSem, step_useWmean, step_usePerr, hr]
     exact this _ hz
   · rw [h0]
     have hmem : ∀ t ∈ (ss.filter fun s => s = Sel.useStd ∨ s = Sel.useSem),
@@ -387,11 +388,11 @@ theorem C10_selectors_zero (xs es : List ℝ) (hz : hasZero es = true) (ss : Lis
       intro t ht; simpa using (List.mem_filter.mp ht).2
     generalize (ss.filter fun s => s = Sel.useStd ∨ s = Sel.useSem) = ts at hmem
     induction ts using List.reverseRecOn with
-    | nil => simp [run_nil, Rep.init]
+    | nil => simp [run_nil, init_eq]
     | append_singleton ts t _ =>
       rw [run_snoc]
       have hx : ((Rep.init xs es).run ts).xs = xs := run_xs _ ts
-      rcases hmem t (by simp) with rfl | rfl <;> simp [Rep.step, hx]
+      rcases hmem t (by simp) with rfl | rfl <;> simp [step_useStd, step_useSem, hx]
 
 /-! ### 10. non-vacuity -/
 
